@@ -339,7 +339,14 @@ WOutcomes(w0, impl, st, c, x) ==
       [] w = "failro" -> {WithX(o, x) : o \in FailRoOutcomes(impl, st, c)}
       [] w = "failfs" -> FailOutcomes(impl, st, c, x)
       [] w = "basepath" -> {WithX(o, x) : o \in BpOutcomes(impl, st, c)}
-      [] w = "sub" -> SubOutcomes(impl, st, c, x) \cup KF32(impl, st, c, x)
+      [] w = "sub" ->
+            IF c.v = 8 /\ "dir2" \in DOMAIN x /\ x.dir2 # <<"none">>
+            THEN \* the call goes through the SECOND view of the same parent: the same rules with that view's own
+                 \* directory, working directory and umask; the first view's state is untouched
+                 LET x2 == [x EXCEPT !.dir = x.dir2, !.vcwd = x.vcwd2, !.umask = x.umask2] IN
+                 {[o EXCEPT !.x = [x EXCEPT !.vcwd2 = o.x.vcwd, !.umask2 = o.x.umask]]
+                    : o \in SubOutcomes(impl, st, c, x2) \cup KF32(impl, st, c, x2)}
+            ELSE SubOutcomes(impl, st, c, x) \cup KF32(impl, st, c, x)
 
 \* the tree (and the modification times, carried separately) never change through a read-only wrapper
 BaseUntouched(w, st, o) == w \in {"rofs", "failro"} => Proj(o.st) = Proj(st)
